@@ -21,6 +21,7 @@ def stepC14 (_ : Unit) (ws : List String) : Unit × String :=
         | some n, some h, some w => if 1 ≤ h && h ≤ 4 && w ≤ 8 then runHdr sourceCleansUp sourceBypass n h w else "bad-op"
         | _, _, _ => "bad-op"
     | ["postlog", _, _] => "consistent"     -- header writers released together: judged by the property oracle
+    | ["logposts", _, _] => "consistent"    -- the same with the log board's index missing at the start
     | ["posts", _, _] => "consistent"       -- real posts + a second process appending to the board's .DIR: judged by the property oracle
     | ["mix", _, _, _, _] => "consistent"   -- commenters + appenders + a second process: judged by the property oracle
     | _ => "bad-op"
